@@ -12,7 +12,7 @@ import itertools
 import typing as t
 import warnings
 
-from mc import core, values, sched
+from mc import core, values, sched, grammar
 
 ID = 'C10'
 MAXTASKS = 1          # every shard in a fresh interpreter: allocation history (id recycling) is then reproducible from the shard alone
@@ -39,7 +39,7 @@ META = {
 
 T_ = t.TypeVar('T_')
 PROBES: t.List[t.Any] = [[1, 'a', 2.0], ['a', 2.0, 1], ['a'], {'a': 1.0}, {'x': 1}, {'x': 'a'}, [1, 'a'], {'v': 1}, {'v': 'a'}, [1],
-                         {'inner': {'x': 1}, 'n': 1}, 7, 0, -0.0, 0.0, 1]
+                         {'inner': {'x': 1}, 'n': 1}, 7, 0, -0.0, 0.0, 1, ['1.5'], [2.5]]
 
 _FIX: t.Dict[str, t.Any] = {}
 
@@ -81,6 +81,8 @@ def fixtures(pane):
     Inner = type('Inner', (pane.PaneBase,), {'__annotations__': {'x': int}, '__module__': 'mc.generated'}, custom={int: times3})
     Outer = type('Outer', (pane.PaneBase,), {'__annotations__': {'inner': Inner, 'n': int}, '__module__': 'mc.generated'}, custom=h10)
     LONG = t.List[int]
+    import decimal
+    _FIX.update(ULISTS=grammar.pin(t.Union[t.List[int], t.List[decimal.Decimal]]), LUNION=grammar.pin(t.List[t.Union[int, float]]))
     _FIX.update(G=G, Inner=Inner, Outer=Outer, LONG=LONG, h10=h10, h_never=h_never, times3=times3, times10=times10)
     return _FIX
 
@@ -113,7 +115,11 @@ KINDS: t.Dict[str, t.Callable[[t.Any], t.Any]] = {
     'complex_t': lambda pane: complex,
     'inner_dc': lambda pane: fixtures(pane)['Inner'],
     'outer_dc': lambda pane: fixtures(pane)['Outer'],
+    # two members that hold the same Python class but serialise it differently / a union below a list
+    'union_lists': lambda pane: fixtures(pane)['ULISTS'],
+    'list_union': lambda pane: fixtures(pane)['LUNION'],
 }
+LONG_LIVED = ('long_list', 'inner_dc', 'outer_dc', 'union_lists', 'list_union', 'float_t', 'complex_t')
 KIND_NAMES = list(KINDS)
 HFORMS = ['plain', 'map', 'callable', 'seq', 'smap_a', 'smap_b']     # smap_*: ONE shared dict object whose content is changed between calls
 # alphabets per tier: (kinds that may be BUILT, handler forms at inner levels); the last level always tries all four handler forms
@@ -162,7 +168,11 @@ def outcome_vector(pane, ty, hform, fresh=False, reverse=False, only=None):
     for p in order:
         try:
             r = pane.from_data(values.fresh(p), ty, custom=custom)
-            vec.append(('ok', repr(r)))
+            try:
+                back = repr(pane.into_data(r, ty, custom=custom))     # the other direction goes through the same memoised converter
+            except Exception as e2:  # noqa
+                back = f"<{type(e2).__name__}>"
+            vec.append(('ok', repr(r), back))
         except ConvertError as e:
             vec.append(('rej', core.sstr(e, 60)))
         except Exception as e:  # noqa
@@ -303,10 +313,10 @@ class HState:
             s = op[1]
             if self.conv[s]:
                 self.dead.append((self.kinds[s], tuple(sorted(self.conv[s]))))
-                if self.kinds[s] not in ('long_list', 'inner_dc', 'outer_dc'):
+                if self.kinds[s] not in LONG_LIVED:
                     self.dead_ids[id(self.slots[s])] = self.dead[-1]
             self.alias[s] = None
-            if self.kinds[s] not in ('long_list', 'inner_dc', 'outer_dc'):
+            if self.kinds[s] not in LONG_LIVED:
                 self.dropped_ids.add(id(self.slots[s]))
             was_class = (self.kinds[s] or '').startswith('generic')
             self.slots[s], self.kinds[s], self.conv[s] = None, None, set()
@@ -611,10 +621,48 @@ def run_scenario(pane, sc, bound, res, only_prefix=None):
     return ex.violations
 
 
+VALSEQ_KINDS = ['union_lists', 'list_union', 'float_t', 'complex_t', 'inner_dc', 'long_list']
+
+
+def run_valseq(pane, res, kind, table, depth):
+    """Every ordered sequence of <= depth probes (those the type accepts, plus two it refuses) is pushed through the memoised
+    converter of one long-lived type, from_data then into_data at each step; each step must give what a pristine interpreter
+    gives for that probe alone.  The converter is NOT rebuilt between sequences: later sequences extend the history."""
+    want = {tuple(k): v for k, v in table}[(kind, 'plain')]
+    ok = [i for i in range(len(PROBES)) if want[i][0] == 'ok']
+    rej = [i for i in range(len(PROBES)) if want[i][0] != 'ok'][:2]
+    alphabet = ok + rej
+    fixtures(pane)
+    ty = KINDS[kind](pane)
+    n = 0
+    for length in range(1, depth + 1):
+        for seq in itertools.product(alphabet, repeat=length):
+            hist = []
+            for pi in seq:
+                got = tuple(outcome_vector(pane, ty, 'plain', only=pi))
+                hist.append(pi)
+                n += 1
+                if got != tuple(want[pi]):
+                    core.add_violation(res, {'kind': 'value_history_dependent_result', 'type': kind},
+                                       f"{kind}: after converting the probes {[PROBES[i] for i in hist[:-1]]!r}, probe {PROBES[pi]!r} gives "
+                                       f"{got!r}; a pristine interpreter gives {tuple(want[pi])!r}",
+                                       {'part': 'valseq', 'kind': kind, 'seq': list(seq), 'at': len(hist)}, len(hist))
+                    break
+    res['states'] += n
+    res['transitions'] += 2 * n
+    res['validated'] += n
+    res['evals'] += n
+    res['nontrivial'].add(f"valseq|{kind}|{len(alphabet)}")
+    res['outcomes']['value_sequences'] += n
+
+
 def plan(tier, seed):
     # the pristine outcome table is computed ONCE, in fresh interpreters, and handed to every history shard
     table = [[list(k), [list(x) for x in v]] for k, v in pristine_table().items()]
     shards = [{'part': 'hist', 'first': k, 'table': table} for k in ALPHABET[tier][0]]
+    # value sequences: all ordered sequences of <= 3 probes through ONE memoised converter (both directions per step)
+    for k in VALSEQ_KINDS:
+        shards.append({'part': 'valseq', 'kind': k, 'table': [e for e in table if e[0][0] == k and e[0][1] == 'plain']})
     scs = scenarios()
     # the expensive three-thread and make_converter scenarios first, one scenario per shard
     order = sorted(range(len(scs)), key=lambda i: (scs[i]['kind'] == 'keycache', scs[i].get('shape') != [3, 1]))
@@ -629,6 +677,9 @@ def run_shard(shard, tier):
     res = core.new_result()
     if shard['part'] == 'hist':
         run_hist(pane, res, shard['first'], 5 if tier == 'quick' else 6, tier, shard.get('table'))
+        return res
+    if shard['part'] == 'valseq':
+        run_valseq(pane, res, shard['kind'], shard['table'], 3 if tier == 'quick' else 4)
         return res
     scs = scenarios()
     for i in range(shard['from'], shard['to']):
@@ -663,6 +714,8 @@ def replay(cell):
         if st.problem:
             return [{'sig': {'kind': 'history_dependent_result'}, 'msg': st.problem, 'cell': cell, 'cost': 0}]
         return []
+    if cell['part'] == 'valseq':
+        return []          # (history-dependent by construction: confirmed by re-running the originating shard, see core.run_replay)
     sc = scenarios()[cell['scenario']]
     v = run_scenario(pane, sc, cell['bound'], res, only_prefix=cell['choices'])
     return [{'sig': {'kind': 'schedule_violation', 'scenario': sc['kind'], 'maxsize': sc.get('maxsize'), 'what': p.split(':')[0][:40]},
